@@ -1,12 +1,15 @@
 #!/bin/sh
 # integrate.sh <workspace-id e.g. C20>: copy the files a builder created in /var/tmp/b-<id>/verif into /verif
-# (untracked files only; modified tracked files are listed for manual merging)
+# (untracked files and files added in the builder's own commits; modified shared files are listed for manual merging)
 W=/var/tmp/b-$1/verif
 cd $W || exit 1
-git status --porcelain --untracked-files=all | while read st f; do
+BASE=""
+for h in $(git log --format=%H); do if git -C /verif cat-file -e $h 2>/dev/null; then BASE=$h; break; fi; done
+{ git status --porcelain --untracked-files=all | awk '{print $1" "$2}'; [ -n "$BASE" ] && git diff --name-status $BASE HEAD | awk '{s=$1; if (s=="A") s="??"; print s" "$2}'; } | sort -u | while read st f; do
   case "$f" in
     _build/*|harness/go.sum|*.vo|*.vok|*.vos|*.glob|*.aux|coq/Makefile*|coq/.*) continue;;
   esac
+  [ -e "$f" ] || continue
   if [ "$st" = "??" ]; then
     mkdir -p "/verif/$(dirname "$f")"; cp -a "$f" "/verif/$f"; echo "new  $f"
   else
@@ -14,4 +17,4 @@ git status --porcelain --untracked-files=all | while read st f; do
   fi
 done
 echo "--- repo commits on b-$1:"
-git -C /var/tmp/b-$1/repo log --oneline main..b-$1 2>/dev/null || git -C /var/tmp/b-$1/repo log --oneline -5
+git -C /var/tmp/b-$1/repo log --oneline main..b-$1 2>/dev/null | head -20
